@@ -1356,9 +1356,13 @@ class ParameterGrid(object):
 
     @property
     def grid(self):
-        """The numpy.ndarray with the grid values of the parameter.
+        """The numpy.ndarray with the grid values of the parameter. It is a
+        read-only view, so the grid values cannot get changed behind the back
+        of this object.
         """
-        return self._grid
+        grid = self._grid.view()
+        grid.setflags(write=False)
+        return grid
 
     @grid.setter
     def grid(self, arr):
@@ -1572,9 +1576,13 @@ class IrregularParameterGrid(object):
 
     @property
     def grid(self):
-        """The numpy.ndarray with the grid values of the parameter.
+        """The numpy.ndarray with the grid values of the parameter. It is a
+        read-only view, so the grid values cannot get changed behind the back
+        of this object.
         """
-        return self._grid
+        grid = self._grid.view()
+        grid.setflags(write=False)
+        return grid
 
     @grid.setter
     def grid(self, arr):
